@@ -124,7 +124,7 @@ def run(ck):
         for fl in retry:
             s = {x: fl["trace"][x] for x in ("vals", "k", "o", "kp", "copies", "cons", "c", "fmt")}
             s["w"] = fl["trace"]["w"] if fl["trace"]["wgiven"] else None
-            s["copies_scalar"] = False; s["inject"] = ""; s["nopre"] = 1
+            s["copies_scalar"] = bool(fl["trace"].get("cps")); s["inject"] = ""; s["nopre"] = 1
             st2.append(s)
         t2 = core.pmap(drive.run_ilp, st2)
         f2 = ck.judge("JIlp", t2, {"C17"}, what="C17 re-solve without preprocessing", chunk=400, count_events=lambda t: 1)
